@@ -27,7 +27,7 @@ TRUSTED = ["CPython gc / sys / threading / warnings / traceback module attribute
 
 OPTS = ["gc", "gcopt", "coverage", "profile", "buffer", "werror", "postmortem"]
 ENDINGS = ["pass", "fail", "stop", "hook-raises", "interrupt", "ttd-raises-skip", "ttd-raises-fail", "ttd-raises-interrupt",
-           "ttd-raises-failskip", "chdir", "rebind-err", "rebind-out", "rebind-both", "list"]
+           "ttd-raises-failskip", "chdir", "rebind-err", "rebind-out", "rebind-both", "list", "swaplayer"]
 FIELDS = ["gcThr", "gcDbg", "tbFormat", "tbPrint", "trace", "thrTrace", "setTrace", "profile", "warn", "stdout", "stderr"]
 
 
@@ -39,8 +39,24 @@ def make_world(ctx, ending, idx, opts=()):
              "ttd-raises-fail": ["fail", "subFail2"], "ttd-raises-interrupt": ["pass"],
              "ttd-raises-failskip": ["subFailThenSkip", "failThenSkipTearDown"], "chdir": ["pass", "fail"],
              "rebind-err": ["fail", "error", "pass"], "rebind-out": ["fail", "error", "pass"],
-             "rebind-both": ["fail", "error", "pass"], "list": ["pass", "fail"]}[ending]
-    w = worlds.gen_world(rng, n_layers=2, tests_per_layer=(1, 2), kinds=kinds, p_fault=0.0, p_write=0.3)
+             "rebind-both": ["fail", "error", "pass"], "list": ["pass", "fail"], "swaplayer": ["pass", "fail"]}[ending]
+    w = worlds.gen_world(rng, n_layers=3 if ending == "swaplayer" else 2, tests_per_layer=(1, 2), kinds=kinds, p_fault=0.0,
+                         p_write=0.3)
+    if ending == "swaplayer":
+        # layers that install std streams of their own while they are set up and put back what they found when they
+        # are torn down: after the run the streams are those of before the run, whichever layer ran first or last
+        non_unit = [l for l in w["layers"] if l["kind"] != "unit"]
+        for k, l in enumerate(non_unit):
+            l["bases"] = []
+            l.pop("falsy", None)
+            l["setUp"] = l["tearDown"] = True
+            l["setUpRaises"], l["tearDownFaults"] = [], []
+            if k == idx % len(non_unit) or rng.random() < 0.3:
+                l["swapStreams"] = True
+        if idx % 2 == 0:
+            # ... in particular the layer whose tests are the first of the run (run with -f: no unit tests before it)
+            first = min(range(len(w["layers"])), key=lambda k: (w["layers"][k]["kind"] == "unit", worlds.layer_name(w, k)))
+            w["layers"][first]["swapStreams"] = True
     if ending == "hook-raises":
         for l in w["layers"]:
             if l["kind"] != "unit":
@@ -99,6 +115,8 @@ def run_case(ctx, opts, ending, idx, pre_trace=False):
         args.append("--buffer")
     if ending == "stop":
         args.append("-x")
+    if ending == "swaplayer" and idx % 2 == 0:
+        args.append("-f")
     if ending == "list":
         # a run that only lists the tests is an in-process run that returns, too
         args.append("--list-tests")
@@ -154,7 +172,8 @@ def run(ctx):
     if ctx.quick():
         cases = ctx.rng.sample(cases, 40) + [(tuple(OPTS), e) for e in ENDINGS] + \
             [(("gc", "gcopt", "profile"), "chdir"), (("gc", "profile"), "chdir"), (("gcopt", "profile", "buffer"), "chdir"),
-             ((), "list"), (("gc", "gcopt"), "list"), (("coverage", "buffer"), "list")]
+             ((), "list"), (("gc", "gcopt"), "list"), (("coverage", "buffer"), "list"),
+             (("buffer",), "swaplayer"), (("buffer", "gc"), "swaplayer"), (("buffer",), "swaplayer"), ((), "swaplayer")]
     with concurrent.futures.ThreadPoolExecutor(max_workers=10) as ex:
         results = list(ex.map(lambda a: run_case(ctx, a[1][0], a[1][1], a[0]), enumerate(cases)))
     queries = []
